@@ -329,6 +329,16 @@ func checkC09(p *Prog, r *Report) {
 
 	checkMapsNotMutatedWhileRanged(p, r, kp)
 	checkWiringMapRanges(p, r, kp)
+	// the genesis maps are walked in map order: that is order-free only while distinct genesis keys decode to distinct store keys
+	// (every position of a typed key's string form bound to its own field) …
+	if ck := p.Iface(Rel(compkeyPkg), "CompositeKey"); ck != nil {
+		for _, kt := range p.ImplementersOf(ck) {
+			checkTypedKey(p, r, kp, kt)
+		}
+	}
+	// … and what a handler reads from a store is not modified in place (the bytes belong to the store's shared cache: a
+	// simulation on one node would leak into its committed view)
+	checkStoreGetNotModified(p, r, "C09")
 	// D2 map ranges
 	nMap := 0
 	for _, fn := range scope {
@@ -1033,4 +1043,39 @@ func compoundStoreEffect(p *Prog, g *ssa.Function) string {
 		}
 	}
 	return ""
+}
+
+
+// checkReplayedBlockSeesSameInputs (C10): a block whose execution is repeated after a stop (begun, not committed) must compute what
+// it computed the first time — no wall clock, random source or process property reaches a consensus-visible sink. This is the call
+// part of C09-D1, over the same scope.
+func checkReplayedBlockSeesSameInputs(p *Prog, r *Report, kp func(string, string) string, scope []*ssa.Function) {
+	n, nBad := 0, 0
+	for _, fn := range scope {
+		if fn.Blocks == nil {
+			continue
+		}
+		for _, b := range fn.Blocks {
+			for _, in := range b.Instrs {
+				c, ok := in.(*ssa.Call)
+				if !ok {
+					continue
+				}
+				name := calleeName(&c.Call)
+				if !isNondetSource(name) || strings.HasPrefix(name, "(sdk/types.Context).") {
+					continue
+				}
+				n++
+				if sink := flowsToSink(p, fn, c); sink != "" {
+					nBad++
+					r.Fail(kp("FLOW", FuncName(fn)+"→"+name+"@"+blockTag(fn, b)), "a block executed again after a restart computes what it computed the first time: no clock, random or process-local value reaches state", p.Pos(c.Pos()),
+						fmt.Sprintf("the result of %s in %s is %s: the block that was begun before the stop and the same block executed after the restart store different values, and the node's hash differs from a node that never stopped", name, FuncName(fn), sink))
+				}
+			}
+		}
+	}
+	if nBad == 0 {
+		r.OK(kp("FLOW", "replayed-block#same-inputs"), "a block executed again after a restart computes what it computed the first time: no clock, random or process-local value reaches state", "x/*, app/",
+			fmt.Sprintf("%d calls of clock/random/process sources in scope, none reaches a consensus-visible sink", n))
+	}
 }
